@@ -31,10 +31,21 @@ def gen_case(rng):
                 norm=rng.choice([None, None, 'linear(0.5, 1)', 'minmax', 'zscore', 'linear(1, 300)']))
 
 
+def xdom(case):
+    """domain of the two exogenous inputs: symmetric about 0 for the topology with an interaction term"""
+    return (-1.0, 1.0) if case['topo'] == 'chain2z' else (0.0, 1.0)
+
+
+def xsample(case, rs, n):
+    lo, hi = xdom(case)
+    return lo + (hi - lo) * rs.rand(n)
+
+
 def true_ranges(case):
     """ranges of the coupling variables over x in [0,1]^2 (by sampling the true system)"""
     f = system_fn(case)
-    xs = np.random.RandomState(1).rand(4000, 2)
+    lo_, hi_ = xdom(case)
+    xs = lo_ + (hi_ - lo_) * np.random.RandomState(1).rand(4000, 2)
     out = np.array([f(x0, x1) for x0, x1 in xs])
     return out.min(axis=0), out.max(axis=0)
 
@@ -52,6 +63,11 @@ def system_fn(case):
             y1 = 101325.0 + 0.1 * (c[0] * x0 + c[1] * x1 ** 2)
             d = y1 - 101325.0
             y2 = c[2] * d ** 2 - d + c[3] * x1
+            return (y1, y2)
+    elif topo == 'chain2z':      # an INTERACTION term on domains symmetric about 0: candidates whose indicator is exactly 0 occur
+        def f(x0, x1):
+            y1 = x0 * x1
+            y2 = y1 + 2.0 * x1 ** 2 + 3.0
             return (y1, y2)
     elif topo == 'chain2a':      # anisotropic: degree 4 in the coupling variable (listed FIRST by the consumer), degree 1 in x1
         def f(x0, x1):
@@ -89,7 +105,7 @@ def system_fn(case):
 def build(case):
     c, topo = case['coef'], case['topo']
     lo, hi = true_ranges(case)
-    x0, x1 = Variable('x0', domain=(0.0, 1.0)), Variable('x1', domain=(0.0, 1.0))
+    x0, x1 = Variable('x0', domain=xdom(case)), Variable('x1', domain=xdom(case))
 
     def guess(k):
         a, b = float(lo[k]), float(hi[k])
@@ -128,6 +144,13 @@ def build(case):
         comps = [Component(lambda inputs: {'y1': 101325.0 + 0.1 * (c[0] * inputs['x0'] + c[1] * inputs['x1'] ** 2)}, inputs=[x0, x1],
                            outputs=[y1], name='c1', vectorized=True, data_fidelity=(2, 2), training_data=sg()),
                  Component(lambda inputs: {'y2': c[2] * (inputs['y1'] - 101325.0) ** 2 - (inputs['y1'] - 101325.0) + c[3] * inputs['x1']},
+                           inputs=[y1, x1], outputs=[y2], name='c2', vectorized=True, data_fidelity=(2, 2), training_data=sg())]
+        cnames = ['y1']
+    elif topo == 'chain2z':
+        y1, y2 = cv('y1', 0), Variable('y2')
+        comps = [Component(lambda inputs: {'y1': inputs['x0'] * inputs['x1']}, inputs=[x0, x1],
+                           outputs=[y1], name='c1', vectorized=True, data_fidelity=(2, 2), training_data=sg()),
+                 Component(lambda inputs: {'y2': inputs['y1'] + 2.0 * inputs['x1'] ** 2 + 3.0},
                            inputs=[y1, x1], outputs=[y2], name='c2', vectorized=True, data_fidelity=(2, 2), training_data=sg())]
         cnames = ['y1']
     elif topo == 'chain2a':
@@ -194,7 +217,7 @@ def run_case(ctx, res, case, lines, post):
             # the bounds are estimated (here: TIGHTENED, the guess being too wide) only after part of the training is done
             system.fit(max_iter=3 + case['seed'] % 4, max_tol=-np.inf, num_refine=60, update_bounds=False)
         rs = np.random.RandomState(case['seed'])
-        xt = {'x0': rs.rand(50), 'x1': rs.rand(50)}
+        xt = {'x0': xsample(case, rs, 50), 'x1': xsample(case, rs, 50)}
         vals = np.array([f(a, b) for a, b in zip(xt['x0'], xt['x1'])])
         yt = {n: vals[:, i] for i, n in enumerate(out_names)}
         kw.update(estimate_bounds=True, update_bounds=False, test_set=(xt, yt))
@@ -209,7 +232,7 @@ def run_case(ctx, res, case, lines, post):
     dom1 = {n: tuple(map(float, system.outputs()[n].get_domain())) for n in cnames}
     moved = [n for n in cnames if dom1[n] != dom0[n]]
     rs = np.random.RandomState(case['seed'] + 1)
-    X = {'x0': rs.rand(12), 'x1': rs.rand(12)}
+    X = {'x0': xsample(case, rs, 12), 'x1': xsample(case, rs, 12)}
     y = system.predict(dict(X), normalized_inputs=False) if case['norm'] is None else None
     # predict returns normalised outputs: convert to model units
     from amisc.utils import to_model_dataset, to_surrogate_dataset
@@ -277,6 +300,10 @@ def run(ctx: core.Ctx, only=None) -> core.Result:
             c_ = gen_case(ctx.rng)
             c_.update(norm=[None, 'linear(0.5, 1)'][k % 2], bounds=['update', 'fixed'][k % 2], guess=['exact', 'wide'][k % 2],
                       topo=['chain2a', 'loop2s'][k % 2])
+            cases.append(c_)
+        for k in range(ctx.scale(2, 4)):      # interaction term on symmetric domains (exactly-zero indicators during training)
+            c_ = gen_case(ctx.rng)
+            c_.update(norm=None, bounds=['update', 'fixed'][k % 2], guess=['exact', 'wide'][k % 2], topo='chain2z')
             cases.append(c_)
         for k in range(ctx.scale(2, 6)):      # un-normalised coupling variable of magnitude 1e5 and range < 1
             c_ = gen_case(ctx.rng)
